@@ -577,7 +577,16 @@ impl Analyzable for NegateOp {
 impl Analyzable for RecordConstructorField {
     fn analyze(&mut self, parent: Option<Rc<Scope>>) -> AnalyzeReport {
         let name = self.name.analyze(parent.clone());
-        let value = self.value.analyze(parent.clone());
+
+        // the value is an expression of the scope the constructor is written in: the fields
+        // of the record under construction (and its sibling cases) must not shadow a
+        // parameter or local of the same name
+        let outer = parent
+            .as_ref()
+            .and_then(|fields| fields.parent.as_ref())
+            .and_then(|cases| cases.parent.clone());
+
+        let value = self.value.analyze(outer.or(parent.clone()));
 
         name + value
     }
